@@ -231,6 +231,8 @@ package tracing
 //@   ensures c32ResetLive(domain, reqMsgID) ==> c33HookN == old(c33HookN) + 1 && c32LogKept()
 //@   label C32.resetreq.end
 //@   ensures c32ResetLive(domain, reqMsgID) ==> c32IsEnd(old(c33HookN), domain, old(c32RecvByID(domain, reqMsgID)))
+//@   label C32.resetreq.entry0                   // (ground form of the next clause: the entry is gone)
+//@   ensures c32ResetLive(domain, reqMsgID) ==> c32RecvByID(domain, reqMsgID) == 0
 //@   label C32.resetreq.forgotten
 //@   ensures c32ResetLive(domain, reqMsgID) ==> c32RegDel(c32Recv, old(c32Recv), c33Name(domain), reqMsgID)
 //@   label C32.resetreq.registries
